@@ -528,6 +528,12 @@ def build_batch(r, n_funcs, fixed=False):
             thm = not shadow and (not d_mentions(d) or (m0[0] == "const" and d[0] == "param" and simple_chain))
           else:
             thm = not shadow and not collide and (not d_mentions(d) or (m0[0] == "const" and d[0] == "param"))
+          single = all(t[0] != "union" and t != L.NOTHING for t in kps0)
+          if d_mentions(d) and not shadow and simple_chain:
+            if m0[0] == "const" and d[0] in ("dgen", "dtup") and not d_param_union(d):
+              thm = True               # attr_nested_typevar_read (both variants, colliding names included)
+            if m0[0] != "const" and single:
+              thm = True               # property_typevar_read (one view)
           info.update(shadow=shadow, collide=collide)
           probes.append(Probe("x%s_%s" % (gname, n), "A.%s.%s" % (gname, n), "attr",
                               "read_emitted A %%FIXED%% 8 tbl %d %s %d" % (c["id"], ps_coq, nid(n)), exp, thm, info, True))
@@ -540,7 +546,9 @@ def build_batch(r, n_funcs, fixed=False):
               cl["pool"] = pool
               exp, thm = None, False
               if cl["own"] and len(sigs) == 1 and not shadowed:
-                exp, thm = d_subst(dret, kps0), False      # correspondence + oracle only (no theorem on method calls)
+                # method_call_result: one signature, own-types call, one view, base arguments simple
+                exp = d_subst(dret, kps0)
+                thm = kind == "method" and simple_chain and all(t[0] != "union" and t != L.NOTHING for t in kps0)
               info2 = dict(info, call=cl, nsig=len(sigs), amb=any(ambiguous(t) for t in cl["pos"] + [t for _, t in cl["named"]]))
               probes.append(Probe("c%s_%s_%d" % (gname, n, ci), call_text("A.%s.%s" % (gname, n), cl), "mcall",
                                   "mcall_emitted A acc 8 tbl %d %s %d %s" % (c["id"], ps_coq, nid(n), call_coq(cl)),
